@@ -49,6 +49,7 @@ inductive CallResult
   | failed (code : Int)
   | emptyReply
   | ctxError
+  | closed                     -- the connection's read loop ended before a reply came
 deriving Repr, DecidableEq
 
 structure Rpc where
@@ -62,6 +63,7 @@ structure Rpc where
   finished : List (String × CallResult) := []   -- results of completed calls, by token
   outbox : List Outgoing := []
   handled : Nat := 0                               -- request handlers started
+  ended : Bool := false                            -- `Serve` has returned (`endServe` closed `served`)
 deriving Repr
 
 namespace Rpc
@@ -161,6 +163,35 @@ def cancel (r : Rpc) (token : String) : Rpc :=
   | some c =>
     let r := r.dropPending c.id
     { r with live := r.live.filter (·.id != c.id), finished := r.finished ++ [(token, .ctxError)] }
+
+/-- `Serve` returns (the connection failed or was closed): `endServe` closes the `served` channel -/
+def serveEnd (r : Rpc) : Rpc := { r with ended := true }
+
+/-- the call on `id` learns that no reply will ever be read: like `complete`, but there is no message - a plain call
+fails with the read loop's error, a handler's call-back fails and the handler answers its request with an error -/
+def abandon (r : Rpc) (id : Nat) : Rpc :=
+  let r := r.dropPending id
+  match r.live.find? (·.id == id) with
+  | none => r
+  | some c =>
+    let r := { r with live := r.live.filter (·.id != id) }
+    match r.handlers.find? (·.callId == id) with
+    | some h => { r with handlers := r.handlers.filter (·.callId != id), outbox := r.outbox ++ [.errResponse h.reqId (-32603)] }
+    | none => { r with finished := r.finished ++ [(c.token, .closed)] }
+
+/-- the `<-r.servedChan()` arm of `receiveFrom`: enabled once the read loop has ended.  The caller drops its slot,
+then looks once more at its channel - a reply that was already delivered still wins - and otherwise gives up -/
+def observeEnd (r : Rpc) (id : Nat) : Rpc :=
+  if !r.ended then r else
+  match r.live.find? (·.id == id) with
+  | none => r
+  | some _ =>
+    match (r.slot? id).bind (·.buf) with
+    | some m => r.complete id m
+    | none => r.abandon id
+
+/-- every call in progress observes the end (in the order the scheduler picks; here: registration order) -/
+def releaseAll (r : Rpc) : Rpc := (r.live.map (·.id)).foldl observeEnd r
 
 end Rpc
 end Vipnode
